@@ -262,6 +262,43 @@ func Classify(l *Loop) *Induction {
 			}
 		}
 	}
+	// worklist in any spelling: the loop continues exactly while len(W) is not zero, W a
+	// loop-carried slice (len(W) > 0, != 0, >= 1, 0 < len(W); or leaves on len(W) == 0, < 1, <= 0)
+	{
+		op, x, y := cond.Op, cond.X, cond.Y
+		if _, isLen := lenOf(x); !isLen {
+			if _, isLen2 := lenOf(y); isLen2 {
+				x, y = y, x
+				switch op {
+				case token.LSS:
+					op = token.GTR
+				case token.GTR:
+					op = token.LSS
+				case token.LEQ:
+					op = token.GEQ
+				case token.GEQ:
+					op = token.LEQ
+				}
+			}
+		}
+		if w, isLen := lenOf(x); isLen {
+			if c, okc := ConstInt(y); okc {
+				// nonEmptyOnTrue: the true edge means len(W) >= 1
+				nonEmptyOnTrue, known := false, false
+				switch {
+				case op == token.GTR && c == 0, op == token.NEQ && c == 0, op == token.GEQ && c == 1:
+					nonEmptyOnTrue, known = true, true
+				case op == token.EQL && c == 0, op == token.LSS && c == 1, op == token.LEQ && c == 0:
+					nonEmptyOnTrue, known = false, true
+				}
+				if known && nonEmptyOnTrue == trueInLoop && inLoop(h.Succs[0]) != inLoop(h.Succs[1]) {
+					if p, ok3 := w.(*ssa.Phi); ok3 && p.Block() == h {
+						return &Induction{Kind: LoopWorklist, Phi: p, Index: p, Cond: ifi}
+					}
+				}
+			}
+		}
+	}
 	return &Induction{Kind: LoopUnknown, Cond: ifi}
 }
 
